@@ -226,7 +226,8 @@ def build_objects(spec, private_in_inputs=True):
             outs.append(Output(o['value'], address=addr, network=network, output_n=k))
         else:
             outs.append(Output(o['value'], lock_script=bytes.fromhex(o['script']), network=network, output_n=k, strict=False))
-    return Transaction(ins, outs, locktime=spec['locktime'], version=spec['version'], network=network, witness_type='segwit')
+    return Transaction(ins, outs, locktime=spec['locktime'], version=spec['version'], network=network,
+                       witness_type=spec.get('tx_witness_type', 'segwit'))
 
 
 def build(spec, private_in_inputs=True, route='add_input'):
@@ -235,7 +236,7 @@ def build(spec, private_in_inputs=True, route='add_input'):
     if route == 'objects':
         return build_objects(spec, private_in_inputs)
     network = spec['network']
-    t = Transaction(network=network, version=spec['version'], locktime=spec['locktime'], witness_type='segwit')
+    t = Transaction(network=network, version=spec['version'], locktime=spec['locktime'], witness_type=spec.get('tx_witness_type', 'segwit'))
     for inp in spec['ins']:
         keys = lib_keys(inp, network, private=private_in_inputs)
         kw = dict(LIB_INPUT_ARGS[inp['kind']])
